@@ -300,7 +300,9 @@ def check_len(prog: Program, res: Result) -> None:
             res.count(R)
         init = ci.methods.get("__init__")
         asg = [s for s in walk_function(init.node) if isinstance(s, ast.Assign) and norm(s.targets[0]) == f"self.{lst}"]
-        res.ob(R, len(asg) == 1 and f"self.{builder}()" in norm(asg[0].value), init.qualname, f"self.{lst} built by {builder}()", f"self.{lst} is not built by {builder}", init.where)
+        built = [s for s in asg if f"self.{builder}()" in norm(s.value)]
+        nones = [s for s in asg if astq.const_value(s.value) is None]   # the no-labels arm:  if self.labels: ... else: self.<list> = None
+        res.ob(R, len(built) == 1 and len(built) + len(nones) == len(asg), init.qualname, f"self.{lst} built by {builder}()", f"self.{lst} is not built by {builder}", init.where)
     # fill loops enumerate the same list
     for cname, lst in (("BaseDataset", "lf_idx_list"), ("CentroidDataset", "lf_idx_list"), ("CenteredInstanceDataset", "instance_idx_list")):
         fc = prog.cls(f"{CD}:{cname}").methods.get("_fill_cache")
